@@ -558,8 +558,14 @@ class ShiftOp:
         if not lst:
             return None
         c = g.rng.choice(lst)
+        right = g.rng.random() < 0.5
+        if g.rng.random() < 0.3:
+            # aim at an edge: the last child to the right, the first to the left
+            ch = [x for x in g.snap.cells[g.snap.lister(c)][CH] if isinstance(x, int)]
+            if ch and ch[-1 if right else 0] in lst:
+                c = ch[-1 if right else 0]
         return {"k": "shift", "s": g.sess, "c": g.sel("lst", c),
-                "right": g.rng.random() < 0.5, "sib": g.rng.random() < 0.5}
+                "right": right, "sib": g.rng.random() < 0.5}
 
     def resolve(self, V, op):
         s = V.s
